@@ -38,6 +38,9 @@ pub fn header_block(order: &str) -> Vec<u8> {
     }
     blk.extend(e.field("user-agent", "x", Rep::LitNoIdxIndexedName, false, false));
     blk.extend(e.field("accept", "*/*", Rep::LitIdxIndexedName, false, true));
+    // ... and a field that refers back to an entry this very block has put into the dynamic table (index 62): the block
+    // needs its own table even when nothing is carried over from another block
+    blk.extend(e.field("accept", "*/*", Rep::Indexed, false, false));
     blk
 }
 pub fn enc(f: &F) -> Vec<u8> {
